@@ -105,7 +105,7 @@ def eval_sem(ck, name, cases):
         p = ln.split(" ")
         if p[0] == "C":
             res[int(p[1])] = {"fragment": p[2] == "1", "width": p[3] == "1", "ctx_ok": p[4] == "1", "text_ok": p[5] == "1",
-                              "model_sel": p[6] == "1", "dbs": []}
+                              "model_sel": p[6] == "1", "wrefs": p[7] == "1", "dbs": []}
         elif p[0] == "D":
             res[int(p[1])]["dbs"].append({"db_ok": p[3] == "1", "absent": p[4] == "1", "oracle": p[5] == "1",
                                           "impl": int(p[6]), "rev": int(p[7]), "model": int(p[8]), "same": p[9] == "1",
@@ -150,8 +150,8 @@ def run_semantic(ck, text_cases):
     if not ok:
         ck.obligation("failing-input search model builds", False, out[-1500:])
         return
-    n = ck.n(260, 6000)
-    ndb = ck.n(5, 12)
+    n = ck.n(260, 4000)
+    ndb = ck.n(5, 10)
     gen = os.path.join(ck.work, "sem_gen.jsonl")
     rc, out = ck.go_run("logqlsem", ["--mode", "gen", "--seed", ck.seed, "--n", n, "--out", gen])
     if rc != 0:
@@ -248,6 +248,9 @@ def run_semantic(ck, text_cases):
             else:
                 fid = FINDING_WIDTH if not v["width"] else FINDING_ABSENT if not d["absent"] else FINDING_FLOAT
                 findings_hit.setdefault(fid, []).append(rep)
+    unbound = [byid[i]["query"] for i, v in res.items() if not v["wrefs"]]
+    ck.obligation("every WithRef of the model's SELECT carries the query that the WITH list binds to its alias (%d plans)" % len(res),
+                  not unbound, "; ".join(unbound[:3]))
     ck.obligation("failing-input search: render(prep(sqlparse(SQL))) = SQL on every fragment case (%d cases)" % len(res),
                   not not_text_ok, "; ".join(c["query"] for c in not_text_ok[:3]))
     ck.obligation("failing-input search machinery: generated databases satisfy db_ok; the extracted model agrees with logql_log_partial on %d guarded evaluations" % theorem_evals,
@@ -292,5 +295,15 @@ def run(ck):
         "C07: db_ok (label index = expansion of time_series, one label map per fingerprint, a series row of the sample's type on a day the reader looks at) is a hypothesis - it is what C04 states about the writer",
     ]
     ck.coq_props()
+    if not ck.quick():
+        ck.coqchk(["Qryn.props.C07"])
     cases = sqltext.run_logql(ck, n_quick=1000, n_thorough=40000)
+    # the OCaml scratch directory of sqltext ("logql") is shared by every check that calls run_logql; when two checks
+    # run at the same time their builds can clobber each other ("inconsistent assumptions over interface Cases").
+    # That is not a property of the repository: retry once.
+    if ck.obligations and not ck.obligations[-1][1] and "ocaml build failed" in ck.obligations[-1][2]:
+        ck.log("sqltext OCaml build was disturbed by a concurrent run; retrying once")
+        ck.obligations.pop()
+        time.sleep(5)
+        cases = sqltext.run_logql(ck, n_quick=1000, n_thorough=40000)
     run_semantic(ck, cases)
